@@ -30,6 +30,21 @@ def getRat (j : Json) (k : String) : Except String Rat := do
 def jRat (q : Rat) : Json := Json.str (toString q)
 def jRats (a : List Rat) : Json := Json.arr (a.map jRat).toArray
 
+/-- parse "p/q" or "p" -/
+def parseRat (s : String) : Except String Rat :=
+  match s.splitOn "/" with
+  | [p] => match p.toInt? with
+    | some a => .ok (a : Rat)
+    | none => .error s!"bad rational {s}"
+  | [p, q] => match p.toInt?, q.toNat? with
+    | some a, some b => if b == 0 then .error "zero denominator" else .ok ((a : Rat) / (b : Rat))
+    | _, _ => .error s!"bad rational {s}"
+  | _ => .error s!"bad rational {s}"
+
+def getRatStrs (j : Json) (k : String) : Except String (Array Rat) := do
+  let a ← j.getObjValAs? (Array String) k
+  a.mapM parseRat
+
 def vecOf (a : Array Rat) (n : Nat) : Vector Rat n := Vector.ofFn fun i => a.getD i.val 0
 
 def mkKIn (j : Json) : Except String (Σ n k, Kernel.KIn n k Rat) := do
@@ -41,10 +56,20 @@ def mkKIn (j : Json) : Except String (Σ n k, Kernel.KIn n k Rat) := do
   return ⟨n, k, { M := .ofFn fun i jj => M.getD (i.val * k + jj.val) 0, y := vecOf y n, ivar := vecOf iv n,
                   s := s, mu := vecOf mu k, lam := vecOf lam k }⟩
 
+/-- same input, every number given as an exact rational string "p/q" -/
+def mkKInQ (j : Json) : Except String (Σ n k, Kernel.KIn n k Rat) := do
+  let n ← getNat j "n"; let k ← getNat j "k"
+  let M ← getRatStrs j "M"; let y ← getRatStrs j "y"; let iv ← getRatStrs j "ivar"
+  let mu ← getRatStrs j "mu"; let lam ← getRatStrs j "lam"; let s ← parseRat (← getStr j "s")
+  if M.size != n * k || y.size != n || iv.size != n || mu.size != k || lam.size != k then
+    throw "shape mismatch"
+  return ⟨n, k, { M := .ofFn fun i jj => M.getD (i.val * k + jj.val) 0, y := vecOf y n, ivar := vecOf iv n,
+                  s := s, mu := vecOf mu k, lam := vecOf lam k }⟩
+
 /-- chi², det B (fast form), a, A; `"singular"` if `det Ainv = 0` or a prior variance / inverse variance is 0
 (the real code returns `+inf` / a non-finite value there) -/
-def kernelEvalOp : H := fun j => do
-  let ⟨n, k, x⟩ ← mkKIn j
+def kernelEvalCore (j : Json) (inp : Σ n k, Kernel.KIn n k Rat) : Except String Json := do
+  let ⟨n, k, x⟩ := inp
   let sv := Kernel.sIvar x
   if (List.finRange n).any (fun i => sv[i] == 0) || (List.finRange k).any (fun jj => x.lam[jj] == 0) then
     return Json.mkObj [("singular", Json.str "zero variance")]
@@ -60,6 +85,9 @@ def kernelEvalOp : H := fun j => do
        ("Ainv", Json.arr (Ainv.toLists.map jRats).toArray),
        ("b", jRats (Kernel.kb x).toList)] else []
   return Json.mkObj (base ++ extra)
+
+def kernelEvalOp : H := fun j => do kernelEvalCore j (← mkKIn j)
+def kernelEvalQOp : H := fun j => do kernelEvalCore j (← mkKInQ j)
 
 def lambdaKOp : H := fun j => do
   let s0 ← getRat j "sigmaK0"; let mk ← getRat j "maxK"; let e ← getRat j "e"; let pw ← getRat j "pw"
@@ -83,17 +111,6 @@ def slotsOp : H := fun j => do
   let sl := Kernel.slots pr
   return Json.mkObj [("mu", jRats (sl.map (·.1))), ("lam", jRats (sl.map (·.2)))]
 
-/-- parse "p/q" or "p" -/
-def parseRat (s : String) : Except String Rat :=
-  match s.splitOn "/" with
-  | [p] => match p.toInt? with
-    | some a => .ok (a : Rat)
-    | none => .error s!"bad rational {s}"
-  | [p, q] => match p.toInt?, q.toNat? with
-    | some a, some b => if b == 0 then .error "zero denominator" else .ok ((a : Rat) / (b : Rat))
-    | _, _ => .error s!"bad rational {s}"
-  | _ => .error s!"bad rational {s}"
-
 /-- `Quantity.to_value`: value (double bits) in a unit of exact rational scale, converted to a target scale -/
 def unitsConvOp : H := fun j => do
   let v ← getRat j "value"
@@ -103,7 +120,7 @@ def unitsConvOp : H := fun j => do
   return Json.mkObj [("value", jRat (Units.conv ⟨v, sc⟩ tg))]
 
 def kernelOps : List (String × H) :=
-  [("kernel.eval", kernelEvalOp), ("kernel.lambdaK", lambdaKOp), ("kernel.designRow", designRowOp),
+  [("kernel.eval", kernelEvalOp), ("kernel.evalq", kernelEvalQOp), ("kernel.lambdaK", lambdaKOp), ("kernel.designRow", designRowOp),
    ("kernel.slots", slotsOp), ("units.conv", unitsConvOp)]
 
 end Drive
